@@ -290,6 +290,19 @@ MUTANTS = [
     m("C09-masked-spectrum", "C09", "dense-path@apply_unary(Callable,LinearOperator,Eigh)", UNARY, "    D = Diagonal(f(eigs))\n    return V @ D @ V.H", "    D = Diagonal(A.xnp.where(A.xnp.abs(eigs) > 1e-12, f(eigs), A.xnp.zeros_like(eigs)))\n    return V @ D @ V.H"),
     m("C10-symmetrised-with-transpose", "C10", "decomposition-operand@eig(LinearOperator,int,str,Eigh)", EIGS, "    eig_vals, eig_vecs = A.xnp.eigh(A.to_dense())\n    return eig_vals[eig_slice], Stiefel(", "    dense = A.to_dense()\n    dense = (dense + dense.T) / 2\n    eig_vals, eig_vecs = A.xnp.eigh(dense)\n    return eig_vals[eig_slice], Stiefel("),
     m("C10-silent-symmetrised-with-adjoint", "C10", "", EIGS, "    eig_vals, eig_vecs = A.xnp.eigh(A.to_dense())\n    return eig_vals[eig_slice], Stiefel(", "    dense = A.to_dense()\n    dense = (dense + dense.conj().T) / 2\n    eig_vals, eig_vecs = A.xnp.eigh(dense)\n    return eig_vals[eig_slice], Stiefel(", silent=True),
+    # ---------------------------------------------------------------- round-4 strengthenings: silent twins of seeded changes
+    m("C14-silent-demorgan-correct", "C14", "", LAN, "        is_large = (subdiag[..., i - 1].real > tol * subdiag[..., 1].real) | (i <= 1)\n        flag = is_not_max & xnp.any(is_large)",
+      "        is_small = (subdiag[..., i - 1].real <= tol * subdiag[..., 1].real) & (i > 1)\n        flag = is_not_max & ~xnp.all(is_small)", silent=True),
+    m("C14-demorgan-strict", "C14", "breakdown-stops@lanczos_fact:cond", LAN, "        is_large = (subdiag[..., i - 1].real > tol * subdiag[..., 1].real) | (i <= 1)\n        flag = is_not_max & xnp.any(is_large)",
+      "        is_small = (subdiag[..., i - 1].real < tol * subdiag[..., 1].real) & (i > 1)\n        flag = is_not_max & ~xnp.all(is_small)"),
+    m("C16-silent-gram-by-shape", "C16", "", PINV, "    M = A.H @ A\n    cons = get_precision(xnp, A.dtype) * max(A.shape)\n    Op = IterativeOperatorWInfo(M, alg)\n    return PSD(Op + cons * I_like(M)) @ A.H",
+      "    cons = get_precision(xnp, A.dtype) * max(A.shape)\n    wide = A.shape[-2] < A.shape[-1]\n    M = A @ A.H if wide else A.H @ A\n    Op = PSD(IterativeOperatorWInfo(M, alg) + cons * I_like(M))\n    return A.H @ Op if wide else Op @ A.H", silent=True),
+    m("C16-gram-wrong-side", "C16", "gram-range@pinv(LinearOperator,CG):tall", PINV, "    M = A.H @ A\n    cons = get_precision(xnp, A.dtype) * max(A.shape)\n    Op = IterativeOperatorWInfo(M, alg)\n    return PSD(Op + cons * I_like(M)) @ A.H",
+      "    cons = get_precision(xnp, A.dtype) * max(A.shape)\n    left = A.shape[-2] < A.shape[-1]\n    M = A.H @ A if left else A @ A.H\n    Op = PSD(IterativeOperatorWInfo(M, alg) + cons * I_like(M))\n    return Op @ A.H if left else A.H @ Op"),
+    m("C02-silent-permutation-rmatmat", "C02", "", OPS, "    def _matmat(self, v):\n        return v[self.perm]\n", "    def _matmat(self, v):\n        return v[self.perm]\n\n    def _rmatmat(self, X):\n        return X[:, self.xnp.argsort(self.perm)]\n", silent=True),
+    m("C02-permutation-rmatmat-forward", "C02", "left-product@Permutation._rmatmat", OPS, "    def _matmat(self, v):\n        return v[self.perm]\n", "    def _matmat(self, v):\n        return v[self.perm]\n\n    def _rmatmat(self, X):\n        return X[:, self.perm]\n"),
+    m("C15-ritz-mask", "C15", "eigs-pairing@arnoldi_eigs:complete", ARN, "    eigvals, vs = xnp.eig(H.to_dense())\n    eigvectors = Q @ lazify(vs)", "    eigvals, vs = xnp.eig(H.to_dense())\n    keep = xnp.abs(eigvals) > tol\n    eigvals, vs = eigvals[keep], vs[:, keep]\n    eigvectors = Q @ lazify(vs)"),
+    m("C19-sliced-densifies-parent", "C19", "matrix-free-product@Sliced.to_dense:parent", OPS, "    def __str__(self):\n        has_length = hasattr(self.slices[0], '__len__')", "    def to_dense(self):\n        return self.A.to_dense()[self.slices[0]][:, self.slices[1]]\n\n    def __str__(self):\n        has_length = hasattr(self.slices[0], '__len__')"),
 ]
 
 
